@@ -193,9 +193,52 @@ func assignable(v, t types.Type) (ok bool) {
 	if types.AssignableTo(v, t) {
 		return true
 	}
-	// type parameters / instantiated generics: compare structurally by string
-	if strings.Contains(t.String(), "[") || strings.Contains(v.String(), "[") || isTypeParam(t) || isTypeParam(v) {
+	// type parameters / instantiated generics are not judged (go/types cannot decide outside the declaring scope)
+	if mentionsGenerics(t, 0) || mentionsGenerics(v, 0) {
 		return true
+	}
+	return false
+}
+
+// mentionsGenerics: a type parameter or an instantiated generic type occurs somewhere inside t.
+func mentionsGenerics(t types.Type, depth int) bool {
+	if depth > 6 {
+		return true // too deep to tell: not judged
+	}
+	switch x := t.(type) {
+	case *types.TypeParam:
+		return true
+	case *types.Named:
+		if x.TypeArgs().Len() > 0 || x.TypeParams().Len() > 0 {
+			return true
+		}
+		return false
+	case *types.Alias:
+		return mentionsGenerics(types.Unalias(x), depth+1)
+	case *types.Pointer:
+		return mentionsGenerics(x.Elem(), depth+1)
+	case *types.Slice:
+		return mentionsGenerics(x.Elem(), depth+1)
+	case *types.Array:
+		return mentionsGenerics(x.Elem(), depth+1)
+	case *types.Chan:
+		return mentionsGenerics(x.Elem(), depth+1)
+	case *types.Map:
+		return mentionsGenerics(x.Key(), depth+1) || mentionsGenerics(x.Elem(), depth+1)
+	case *types.Tuple:
+		for i := 0; i < x.Len(); i++ {
+			if mentionsGenerics(x.At(i).Type(), depth+1) {
+				return true
+			}
+		}
+	case *types.Signature:
+		return mentionsGenerics(x.Params(), depth+1) || mentionsGenerics(x.Results(), depth+1)
+	case *types.Struct:
+		for i := 0; i < x.NumFields(); i++ {
+			if mentionsGenerics(x.Field(i).Type(), depth+1) {
+				return true
+			}
+		}
 	}
 	return false
 }
